@@ -7,6 +7,7 @@ import (
 	"math/rand"
 	"net"
 	"sort"
+	"strings"
 	"testing"
 
 	"github.com/thanos-io/thanos/pkg/verifhook/vfkit"
@@ -78,6 +79,31 @@ func vfc49GenServers(rng *rand.Rand, n int) []string {
 	return out
 }
 
+// vfc49Respell returns another listing of the same server: the identical string, or for IPv6 literals an
+// equivalent spelling that sorts elsewhere ("[::5]:1" -> "[0::5]:1" / "[0:0::5]:1").
+func vfc49Respell(rng *rand.Rand, a string) string {
+	if strings.HasPrefix(a, "[") && rng.Intn(2) == 0 {
+		z := vfkit.Pick(rng, []string{"0", "0:0"})
+		if strings.HasPrefix(a, "[::") {
+			return "[" + z + a[1:]
+		}
+		return strings.Replace(a, "::", ":"+z+"::", 1)
+	}
+	return a
+}
+
+// vfc49Canon is the address a listing stands for (Go's resolver on a literal; independent of the selector).
+func vfc49Canon(listed string) string {
+	if strings.Contains(listed, "/") {
+		return listed
+	}
+	a, err := net.ResolveTCPAddr("tcp", listed)
+	if err != nil {
+		panic(fmt.Sprintf("harness: generated address %q does not resolve: %v", listed, err))
+	}
+	return a.String()
+}
+
 func vfc49Keys(rng *rand.Rand, n int) []string {
 	seen := map[string]bool{}
 	var out []string
@@ -104,12 +130,12 @@ func TestVF_C49(t *testing.T) {
 	r := vfkit.Start(t, "C49")
 	defer r.Finish()
 	nKeys := r.N(1500, 600)
-	r.Rule(fmt.Sprintf("case = a list of 1..16 distinct literal memcached addresses (IPv4 statefulset-like with numbers crossing 9->10 / subnets+ports / IPv6 / unix sockets / mixed) x %d distinct keys; "+
+	r.Rule(fmt.Sprintf("case = a list of 1..16 literal memcached addresses (IPv4 statefulset-like with numbers crossing 9->10 / subnets+ports / IPv6 / unix sockets / mixed; 1 in 3 lists with 1..3 addresses listed twice, as identical strings or as another IPv6 spelling that sorts elsewhere) x %d distinct keys; "+
 		"oracle: PickServer(k) is a configured address, PickServerForKeys lists every key exactly once under PickServer(k), two more permutations of the list give the same answers, "+
-		"after SetServers(list + one new address) every key stays or moves to the new address; distinct = hash of the list + new address; non-trivial = >= 2 servers", nKeys))
+		"after SetServers(list + one new listing, possibly of an address already listed) every key stays or moves to the added listing's address; distinct = hash of the list + new address; non-trivial = >= 2 servers", nKeys))
 	n := r.N(300, 5000) // SetServers (regexp natural sort) dominates under -race: ~0.15 s per list
 	r.Require(int64(n)*4, n/2)
-	r.Assume("addresses are literal IPs / unix paths without leading zeros or duplicates (names would need DNS, which SetServers resolves and the sandbox lacks)")
+	r.Assume("addresses are literal IPs / unix paths without leading zeros in numbers > 0 (names would need DNS, which SetServers resolves and the sandbox lacks); Go's net resolver gives the address a listing stands for")
 	// One pool of distinct keys per run (a function of the seed); every case uses its own window of it.
 	// (Allocating fresh key sets and maps per case is what dominates the run time under the race detector.)
 	pool := vfc49Keys(r.RandS("keys", 0), 12*nKeys)
@@ -126,9 +152,21 @@ func TestVF_C49(t *testing.T) {
 		if rng.Intn(10) == 0 {
 			ns = 1 + rng.Intn(2)
 		}
-		all := vfc49GenServers(rng, ns+1)
+		// 1 in 3 lists carries 1..3 duplicated addresses (the documented weighting feature): exact copies (adjacent
+		// after the natural sort) or another spelling of the same IPv6 address (not adjacent after the sort).
+		dups := 0
+		if rng.Intn(3) == 0 {
+			dups = 1 + rng.Intn(3)
+			if dups > ns {
+				dups = ns
+			}
+		}
+		all := vfc49GenServers(rng, ns+1-dups)
+		for d := 0; d < dups; d++ {
+			all = append(all, vfc49Respell(rng, all[rng.Intn(len(all))]))
+		}
 		sorted := append([]string(nil), all...)
-		sort.Slice(sorted, func(i, j int) bool { return vfc49NatLess(sorted[i], sorted[j]) })
+		sort.SliceStable(sorted, func(i, j int) bool { return vfc49NatLess(sorted[i], sorted[j]) })
 		// choose the server that is added later: the naturally last one in half of the cases
 		newIdx := len(sorted) - 1
 		if rng.Intn(2) == 0 {
@@ -140,6 +178,17 @@ func TestVF_C49(t *testing.T) {
 			if i != newIdx {
 				servers = append(servers, s)
 			}
+		}
+		// rank of the added listing among the old ones (an old listing equal to it counts as sorting before it:
+		// equal strings give the same sorted sequence either way)
+		newIdx = 0
+		for _, s := range servers {
+			if !vfc49NatLess(newSrv, s) {
+				newIdx++
+			}
+		}
+		if dups > 0 {
+			r.Count("lists_with_duplicated_addresses", 1)
 		}
 		off := rng.Intn(len(pool) - nKeys + 1)
 		keys := vfc49KeySet{keys: pool[off : off+nKeys], off: off, idx: poolIdx}
@@ -173,11 +222,21 @@ func vfc49Check(r *vfkit.Run, c int, rng *rand.Rand, servers []string, newSrv st
 		r.T.Fatalf("harness: SetServers(%q): %v", perm0, err)
 	}
 	configured := map[string]bool{}
-	_ = sel.Each(func(a net.Addr) error { configured[a.String()] = true; return nil })
-	if len(configured) != len(servers) {
-		r.Violation(c, "set-servers:address-count-differs", fmt.Sprintf("%d distinct addresses configured from %d servers", len(configured), len(servers)), with(map[string]any{"listed": perm0}))
+	slots := 0
+	_ = sel.Each(func(a net.Addr) error { configured[a.String()] = true; slots++; return nil })
+	wantAddrs := map[string]bool{}
+	for _, s := range servers {
+		wantAddrs[vfc49Canon(s)] = true
+	}
+	sameSet := len(configured) == len(wantAddrs)
+	for a := range wantAddrs {
+		sameSet = sameSet && configured[a]
+	}
+	if slots != len(servers) || !sameSet {
+		r.Violation(c, "set-servers:configured-addresses-differ", fmt.Sprintf("%d slots / %d distinct addresses configured from %d listings of %d distinct addresses", slots, len(configured), len(servers), len(wantAddrs)), with(map[string]any{"listed": perm0}))
 		return
 	}
+	newAddr := vfc49Canon(newSrv)
 	if len(servers) >= 2 {
 		r.Distinct(fmt.Sprintf("%q+%q", servers, newSrv))
 	}
@@ -274,7 +333,7 @@ func vfc49Check(r *vfkit.Run, c int, rng *rand.Rand, servers []string, newSrv st
 		}
 		switch a.String() {
 		case refs[i]:
-		case newSrv:
+		case newAddr: // also when the added listing duplicates an address that is already configured
 			movedToNew++
 		default:
 			fp := "grow:key-moved-between-old-servers:added-server-sorts-last"
